@@ -117,8 +117,16 @@ def h_op(env, op="flip", n=3, dtype="float32", input_order="xyz", output_order="
                 v = X(a, b, k) if v is None else env.ite(rank_is_t, X(a, b, k), v)
             return v
     elif op == "remove":
-        idx, from1 = arg
-        res = ts.remove_tilts(src, list(idx), numbered_from_1=from1, output_file=outp, **kw)
+        idx, from1 = arg[0], arg[1]
+        if len(arg) > 2 and arg[2] == "array":
+            # indices handed over as the caller's ndarray, which is then used for a SECOND call: the caller's array must be
+            # left alone and the second result (checked below) must be the same selection
+            ia = np.array(list(idx))
+            ts.remove_tilts(src, ia, numbered_from_1=from1, **kw)
+            env.check("caller_index_array_unchanged", env.true() if [int(v) for v in ia] == [int(v) for v in idx] else _false(env))
+            res = ts.remove_tilts(src, ia, numbered_from_1=from1, output_file=outp, **kw)
+        else:
+            res = ts.remove_tilts(src, list(idx), numbered_from_1=from1, output_file=outp, **kw)
         res2 = None
         gone = set(i - 1 if from1 else i for i in idx)
         keep = [t for t in range(n) if t not in gone]
@@ -217,7 +225,10 @@ def jobs(tier, seed):
     j += [("h_op", {"op": "bin", "n": 2, "arg": 2, "dtype": "int16", "out_file": True}),
           ("h_op", {"op": "bin", "n": 2, "arg": 3, "dtype": "float32", "out_file": True, "via_file": True, "input_order": "zyx", "output_order": "zyx"}),
           ("h_op", {"op": "crop", "n": 2, "dtype": "int16", "out_file": True, "via_file": True}),
-          ("h_op", {"op": "sort", "n": 3, "dtype": "int16", "out_file": True, "input_order": "zyx"})]
+          ("h_op", {"op": "sort", "n": 3, "dtype": "int16", "out_file": True, "input_order": "zyx"}),
+          ("h_op", {"op": "remove", "n": 5, "arg": ([2, 5], True, "array"), "dtype": "int16", "out_file": True}),
+          ("h_op", {"op": "remove", "n": 4, "arg": ([0, 2], False, "array"), "input_order": "zyx", "output_order": "zyx"}),
+          ("h_op", {"op": "split", "n": 7, "dtype": "int16", "out_file": True}), ("h_op", {"op": "split", "n": 3, "via_file": True, "input_order": "zyx"})]
     if tier == "thorough":
         j += [("h_op", {"op": "sort", "n": 4}), ("h_op", {"op": "bin", "n": 2, "arg": 4, "dtype": "int16", "out_file": True}),
               ("h_op", {"op": "remove", "n": 8, "arg": ([1, 8, 5], True), "via_file": True, "out_file": True})]
